@@ -4264,6 +4264,154 @@ def r_collect(P, R):
 r_collect.NAME = 'R-PAIR(collection model)'
 
 
+def _eval_formula(text, val):
+    """Value of a formula of the documented Boolean syntax (doc.md:
+    precedence `<=>` < `=>` < `#`,`^` < `\\/`,`|` < `/\\`,`&` < `~`,`!`;
+    `ite(a, b, c)`; TRUE / FALSE; names) under the assignment `val`.
+    Raises ValueError on anything else."""
+    import re
+    toks = re.findall(
+        r"<=>|<->|=>|->|\\/|/\\|\|\||&&|[()~!,#^|&]|[A-Za-z_][A-Za-z0-9_.']*",
+        text)
+    if ''.join(toks) != re.sub(r'\s+', '', text):
+        raise ValueError(text)
+    pos = [0]
+    levels = [({'<=>', '<->'}, lambda a, b: a == b),
+              ({'=>', '->'}, lambda a, b: (not a) or b),
+              ({'#', '^'}, lambda a, b: a != b),
+              ({'\\/', '|', '||'}, lambda a, b: a or b),
+              ({'/\\', '&', '&&'}, lambda a, b: a and b)]
+
+    def peek():
+        return toks[pos[0]] if pos[0] < len(toks) else None
+
+    def take(t=None):
+        x = peek()
+        if x is None or (t is not None and x != t):
+            raise ValueError(text)
+        pos[0] += 1
+        return x
+
+    def binary(k):
+        if k == len(levels):
+            return unary()
+        ops, fn = levels[k]
+        a = binary(k + 1)
+        while peek() in ops:
+            take()
+            b = binary(k + 1)
+            a = bool(fn(a, b))
+        return a
+
+    def unary():
+        if peek() in ('~', '!'):
+            take()
+            return not unary()
+        return atom()
+
+    def atom():
+        t = take()
+        if t == '(':
+            a = binary(0)
+            take(')')
+            return a
+        if t == 'ite' and peek() == '(':
+            take('(')
+            a = binary(0)
+            take(',')
+            b = binary(0)
+            take(',')
+            c = binary(0)
+            take(')')
+            return b if a else c
+        if t.upper() == 'TRUE':
+            return True
+        if t.upper() == 'FALSE':
+            return False
+        if t in val:
+            return bool(val[t])
+        raise ValueError(text)
+    out = binary(0)
+    if peek() is not None:
+        raise ValueError(text)
+    return out
+
+
+def to_expr_model(P, R):
+    """`BDD.to_expr` interpreted for every reference of two managers and
+    its output read back by an evaluator of the documented syntax (doc.md)
+    written for this purpose: under every assignment the formula has the
+    value of the reference (C05: `to_expr` gives a formula of the function,
+    in the syntax `add_expr` documents)."""
+    import itertools
+    f = P.func('dd.bdd.BDD.to_expr')
+    stubs = ClassStubs(P, 'dd.bdd.BDD')
+    resolver = interp.ModuleEnv(P, 'dd.bdd', stubs)
+    names = ['a', 'b', 'c']
+    rows = list(itertools.product((False, True), repeat=3))
+    tts = [tuple(bool(a and not b) for a, b, c in rows),
+           tuple(bool(b if a else c) for a, b, c in rows),
+           tuple(bool(a != c) for a, b, c in rows),
+           tuple(bool(c) for a, b, c in rows),
+           tuple(bool((a or b) and c) for a, b, c in rows)]
+    prm = [p for p in f.params if p != 'self']
+    problems = dict()
+    n = 0
+    try:
+        for order in (['a', 'b', 'c'], ['c', 'a', 'b']):
+            base, ext = _build_manager(order, tts, range(len(tts)))
+            for u0 in sorted(base['self._succ']):
+                for u in (u0, -u0):
+                    n += 1
+                    obj = _object_manager(copy.deepcopy(
+                        {k: v for k, v in base.items() if k != 'self'}))
+                    out, _ = interp.run_function(
+                        f.node, {'self': obj, prm[0]: u}, stubs, resolver)
+                    what = (f'order {order}, nodes {base["self._succ"]}: '
+                            f'to_expr({u})')
+                    if out[0] != 'return' or not isinstance(out[1], str):
+                        problems.setdefault('raises', (
+                            f'{what}: {out[0]} {out[1]!r}'))
+                        continue
+                    want = _tt_of(base, u, names)
+                    try:
+                        got = tuple(_eval_formula(
+                            out[1], dict(zip(names, r))) for r in rows)
+                    except ValueError:
+                        problems.setdefault('syntax', (
+                            f'{what} gives {out[1]!r}, which is not a '
+                            'formula of the documented syntax over the '
+                            'declared variables'))
+                        continue
+                    if got != want:
+                        problems.setdefault('wrong-function', (
+                            f'{what} gives {out[1]!r}, which has the '
+                            'values ' + ''.join(
+                                '1' if b else '0' for b in got)
+                            + ' where the reference has ' + ''.join(
+                                '1' if b else '0' for b in want)
+                            + f' (rows in the order of {names})'))
+    except (interp.Unknown, KeyError) as e:
+        R.undecided('R-FORMAT', f.qualname, 'formula model', str(e))
+        return None
+    for sub, msg in sorted(problems.items()):
+        R.violation('R-FORMAT', f'to_expr-{sub}', f.qualname, 'to_expr',
+                    msg, unit=f.unit.rel, line=f.lineno)
+    if not problems:
+        R.holds('R-FORMAT', f.qualname,
+                f'formula model ({n} references): the text is a formula '
+                'of the documented syntax with the values of the '
+                'reference under every assignment')
+    return n
+
+
+def r_to_expr(P, R):
+    n = to_expr_model(P, R)
+    if n is not None:
+        R.floor('R-FORMAT references of the formula model', n, 20)
+r_to_expr.NAME = 'R-FORMAT(to_expr model)'
+
+
 def dot_model(P, R):
     """`dd.bdd._to_dot(roots, bdd)` interpreted (with `dd._utils.DotGraph`)
     on small managers: the graph it builds must show, for every node
